@@ -41,7 +41,9 @@ InfoLens == {0, 1, 32, 100}
 
 \* AEAD: what is changed between seal and open, and the plaintext / AD length class
 AeadChanges == {"nothing", "key", "nonce", "ad", "ad_dropped", "ct_bit", "tag_bit", "truncated_1", "truncated_tag", "extended", "empty"}
-AeadLens    == {0, 1, 15, 16, 17, 63, 64, 65, 130}
+\* (beyond the block sizes of ChaCha20 and Poly1305 also the sizes around one and two file chunks and a megabyte: the
+\* exported seal / open are general RFC 8439 functions, not limited to what the file format puts into one chunk)
+AeadLens    == {0, 1, 15, 16, 17, 63, 64, 65, 130, 65535, 65536, 65537, 65552, 131073, 1048577}
 \* symbolic verdict of each change (Terms!Open)
 AeadOpens(ch, adlen) ==
   LET sealedAd == IF adlen = 0 THEN Lit("") ELSE Sym("ad")
